@@ -175,6 +175,8 @@ class Frame:
 
 # -------------------------------------------------------------- alias table
 NUMPY_ALIAS = {
+    "squeeze": "squeeze",
+    "ravel": "ident",
     "zeros_like": "zeros_like",
     "ones_like": "ones_like",
     "full_like": "full_like",
@@ -231,6 +233,7 @@ class Interp:
         self.stack: list[Frame] = []
         self.lib = lib_semantics  # which library the in-place/rank semantics follow
         self.steps = 0
+        self.class_overlay = getattr(world, "class_overlay", {}) if world is not None else {}
 
     # ----------------------------------------------------------- events
     def event(self, kind, node, detail, data=None):
@@ -569,7 +572,8 @@ class Interp:
         if isinstance(it, dict):
             return list(it.keys())
         if isinstance(it, GenV):
-            return list(it.items)
+            items, it.items = list(it.items), []  # a generator can be consumed once
+            return items
         if isinstance(it, IterV):
             rest = it.items[it.pos:]
             it.pos = len(it.items)
@@ -597,9 +601,18 @@ class Interp:
         if isinstance(target, ast.Attribute):
             o = self.eval(target.value, fr)
             if isinstance(o, Obj):
+                setter = self.prog.lookup_method(o.cls, target.attr + ".setter") if o.cls in self.prog.classes else None
+                if setter is not None:
+                    self.call_function(FuncV(setter, o, defcls=setter.cls), [v], {}, target)
+                    return
                 if self.world is not None:
                     self.world.on_setattr(self, o, target.attr, v, target)
                 o.attrs[target.attr] = v
+                return
+            if isinstance(o, ClassV):
+                self.event("class-attr-store", target,
+                           f"`{short(target, 50)}` stores on the class {o.fq.split(':')[-1]}: the value is shared by all instances")
+                self.class_overlay[(o.fq, target.attr)] = v
                 return
             if isinstance(o, ExtMod) and self.world is not None:
                 r = self.world.on_module_store(self, o.name, target.attr, v, target)
@@ -703,7 +716,27 @@ class Interp:
         else:
             kv = self.eval(sl, fr)
             slice_store = False
-            if isinstance(kv, int) and not isinstance(kv, bool) and kv in (0, -1):
+            if isinstance(kv, (list, tuple)) and all(isinstance(i, int) and not isinstance(i, bool) for i in kv):
+                # x[[i, j, ...]] (op)= v : element-wise scatter
+                cur_t = c.t
+                vlen = None
+                try:
+                    vlen = E.seglen(E.shape(v.t, self.world.env if self.world else E.Env()),
+                                    self.world.env if self.world else E.Env())
+                except E.ShapeError:
+                    vlen = None
+                if vlen not in (1, len(kv)):
+                    self.event("shape-mismatch", target, f"{len(kv)} positions assigned from a value of length {vlen}")
+                    raise Raised("ValueError", target, fr.fi, "shape mismatch in fancy assignment")
+                for j, i in enumerate(kv):
+                    item = v if vlen == 1 else TV(E.idx(v.t, j), 0)
+                    if aug is not None:
+                        item = self.binop(aug, TV(E.idx(c.t, i), 0), item, target)
+                    cur_t = ("upd", cur_t, i, item.t)
+                fr.env[name] = TV(cur_t, c.rank, c.fresh, c.origin)
+                self.check_shape(fr.env[name], target)
+                return
+            if isinstance(kv, int) and not isinstance(kv, bool):
                 k = kv
             elif isinstance(kv, IndexSet):
                 cur = TV(("idxset", c.t, kv.name), 1)
@@ -829,7 +862,8 @@ class Interp:
         if isinstance(v, (list, tuple)):
             return list(v)
         if isinstance(v, GenV):
-            return list(v.items)
+            items, v.items = list(v.items), []
+            return items
         return self.iterate(v, node, fr)
 
     def e_Dict(self, n, fr):
@@ -1097,13 +1131,17 @@ class Interp:
                     return r
             if attr in o.attrs:
                 return o.attrs[attr]
+            if self.class_overlay and o.cls in self.prog.classes:
+                for c in self.prog.mro(o.cls):
+                    if (c, attr) in self.class_overlay:
+                        return self.class_overlay[(c, attr)]
             # class attribute / method / property through the MRO
-            m = self.prog.lookup_method(o.cls, attr)
+            m = self.prog.lookup_method(o.cls, attr) if o.cls in self.prog.classes else None
             if m is not None:
                 if m.is_property():
                     return self.call_function(FuncV(m, o, defcls=m.cls), [], {}, node)
                 return FuncV(m, None if m.is_static() else o, defcls=m.cls)
-            ca, owner = self.prog.lookup_class_attr(o.cls, attr)
+            ca, owner = self.prog.lookup_class_attr(o.cls, attr) if o.cls in self.prog.classes else (None, None)
             if ca is not None:
                 return self.eval_class_attr(ca, owner)
             if attr == "__class__":
@@ -1112,6 +1150,10 @@ class Interp:
         if isinstance(o, ClassV):
             if attr == "__name__":
                 return o.fq.split(":")[-1]
+            if self.class_overlay and o.fq in self.prog.classes:
+                for c in self.prog.mro(o.fq):
+                    if (c, attr) in self.class_overlay:
+                        return self.class_overlay[(c, attr)]
             m = self.prog.lookup_method(o.fq, attr)
             if m is not None:
                 return FuncV(m, None, via=o.via, defcls=m.cls)
@@ -1122,6 +1164,8 @@ class Interp:
         if isinstance(o, SuperV):
             m = self.prog.lookup_method(o.obj.cls, attr, after=o.after)
             if m is None:
+                if attr in ("__init__", "__init_subclass__"):
+                    return _Const(None)  # object.__init__
                 raise Raised("AttributeError", node, fr.fi, f"super() has no {attr}")
             return FuncV(m, o.obj, defcls=m.cls)
         if isinstance(o, ExtMod):
@@ -1237,6 +1281,13 @@ class Interp:
                 return out
             if isinstance(k, IndexSet):
                 return TV(("idxset", c.t, k.name), 1, True)
+            if isinstance(k, (list, tuple)) and all(isinstance(i, int) and not isinstance(i, bool) for i in k):
+                # fancy indexing with a list of positions: a fresh copy
+                if not k:
+                    return TV(("vcat", ()), 1, True)
+                out = TV(("vcat", tuple(E.idx(c.t, i) for i in k)), 1, True)
+                self.check_shape(out, n)
+                return out
             if isinstance(k, TV):
                 self.event("symbolic-index", n, f"symbolic value used as an index in `{short(n, 50)}`")
                 raise self.err(n, "symbolic index")
@@ -1621,6 +1672,10 @@ class Interp:
                 raise self.err(n, "out= of an unsupported value")
         if canon == "ident":
             return args[0]
+        if canon == "squeeze":
+            x = self.to_tv(args[0], n)
+            scalar = self._is_scalar(x)
+            return TV(x.t, 0 if scalar else x.rank, x.fresh, x.origin)
         if canon == "copy":
             x = self.to_tv(args[0], n)
             return TV(x.t, x.rank, True, "")
